@@ -79,7 +79,7 @@ template <class T> static void dqlerp_p(pbt::Ctx& c) {
 	else if (!amb && a != 0 && (d < 0 ? okm != 8 : okp != 8))
 		c.failk(key("dualquat-lerp", ty, "short-path-sign", scls), "lerp(x=(%s,..), y=(%s,..), a=%.17g)=(%s,..) blends towards %sy although dot(x.real,y.real)=%.6Lg", qstr(xr).c_str(), qstr(yr).c_str(), (double)a, qstr(g).c_str(), d < 0 ? "+" : "-", d);
 }
-REG2(dqlerp_p, "dualquat-lerp", 700000, 20000000,
+REG2(dqlerp_p, "dualquat-lerp", 700000, 40000000,
      "dual quaternions with unit real parts in every pair relation of the slerp generator and dual parts from a translation (rigid transform) or arbitrary, a in [0,1] (asserted): all 8 components equal x*(1-a)+(+-y)*a in T with "
      "one common sign, the sign of the shorter arc between the real parts (either when dot is within rounding of 0); non-trivial = a not in {0,1}");
 
@@ -106,7 +106,7 @@ template <class T> static void dqnorm_p(pbt::Ctx& c) {
 	if (!within(c, "dualquat normalize |len-1| err/tol", rabs(norm4(rg) - 1), rel))
 		c.failk(key("dualquat-normalize", ty, "unit-real-part"), "normalize(q=(%s,..)).real=%s has length %.17Lg", qstr(r).c_str(), qstr(g).c_str(), norm4(rg));
 }
-REG2(dqnorm_p, "dualquat-normalize", 500000, 20000000,
+REG2(dqnorm_p, "dualquat-normalize", 500000, 40000000,
      "real part = unit quaternion times a factor log-uniform in 1/64..64 (one quarter unscaled), dual part from a translation or arbitrary (magnitudes 2^-6..2^6): every component equals component/|real| in long double to 32 u relative, "
      "the real part of the result has unit length; non-trivial = the real part was not already unit");
 
@@ -159,7 +159,7 @@ template <class T> static void squad_p(pbt::Ctx& c) {
 		c.failk(key("squad", ty, "squad-equation"), "squad(q1=%s,q2=%s,s1=%s,s2=%s,h=%.17g)=%s, slerp(slerp(q1,q2,h),slerp(s1,s2,h),2h(1-h))=(w=%.17Lg,x=%.17Lg,y=%.17Lg,z=%.17Lg) (distance %.3Lg, bound %.3Lg)",
 		        qstr(q1).c_str(), qstr(q2).c_str(), qstr(s1).c_str(), qstr(s2).c_str(), (double)h, qstr(g).c_str(), want[0], want[1], want[2], want[3], dist4(rg, want), tol);
 }
-REG2(squad_p, "squad", 500000, 20000000,
+REG2(squad_p, "squad", 500000, 40000000,
      "unit q1 and three control points q2, s1, s2 at 1e-3..1.3 rad from it (neighbours on a path), h in [0,1] incl. 0, 1, 1/2 and neighbours: squad(..,0) = q1 and squad(..,1) = q2 to 16 u per component, "
      "interior points against the composed oriented-arc model with propagated bounds; non-trivial = h not in {0,1}, bound < 1e-2");
 
@@ -211,7 +211,7 @@ template <class T> static void intermediate_p(pbt::Ctx& c) {
 		c.failk(key("intermediate", ty, "shoemake-formula"), "intermediate(prev=%s,curr=%s,next=%s)=%s, curr*exp(-(log(curr^-1 next)+log(curr^-1 prev))/4)=(w=%.17Lg,x=%.17Lg,y=%.17Lg,z=%.17Lg) (distance %.3Lg, bound %.3Lg)",
 		        qstr(p).c_str(), qstr(q).c_str(), qstr(n).c_str(), qstr(g).c_str(), want[0], want[1], want[2], want[3], dist4(rg, want), tol);
 }
-REG2(intermediate_p, "intermediate", 500000, 20000000,
+REG2(intermediate_p, "intermediate", 500000, 40000000,
      "unit curr with prev and next at 0.02..1.2 rad from it, one quarter equally spaced on one geodesic (the control point is then curr itself): result against Shoemake's formula in long double, unit length; "
      "every case is non-trivial");
 
@@ -251,7 +251,7 @@ template <class T, int L> static void compat_L(pbt::Ctx& c) {
 	}
 }
 template <class T> static void compat_p(pbt::Ctx& c) { switch (c.draw(4)) { case 0: compat_L<T, 3>(c); break; case 1: compat_L<T, 2>(c); break; case 2: compat_L<T, 4>(c); break; default: compat_L<T, 1>(c); break; } }
-REG2(compat_p, "compat-lerp", 1000000, 30000000,
+REG2(compat_p, "compat-lerp", 1000000, 60000000,
      "gtx/compatibility lerp, scalar and vec2..4 with scalar and with vector factor: operands finite (structured specials, magnitudes 2^-20..2^20), factor any finite moderate value incl. 0, 1, 1/2, [-2,3]: each component "
      "equals x*(1-a)+y*a evaluated in T (VALUE, NaN from inf-inf matches NaN); non-trivial = components pairwise distinct, x != y, a not in {0,1}");
 
@@ -294,4 +294,4 @@ static void isfinite_d(pbt::Ctx& c) {
 		if (b4[i] != w[i]) c.failk("isfinite/dvec4/lane", "isfinite(dvec4)[%d] = %d for %a", i, (int)b4[i], v[i]);
 	}
 }
-PBT_RANDOM("isfinite/double", isfinite_d, 500000, 20000000, "four doubles from the structured generator (specials, raw bit patterns, NaN, inf) through the scalar and dvec4 overloads against the exponent field; non-trivial = at least one inf/NaN lane");
+PBT_RANDOM("isfinite/double", isfinite_d, 500000, 40000000, "four doubles from the structured generator (specials, raw bit patterns, NaN, inf) through the scalar and dvec4 overloads against the exponent field; non-trivial = at least one inf/NaN lane");
